@@ -160,6 +160,8 @@ def _lit_elems(e, lookup, depth=0):
         return list(e.elts)
     if isinstance(e, ast.Name) and lookup is not None:
         d = lookup(e.id)
+        if isinstance(d, (ast.Tuple, ast.List)) and all(isinstance(x, ast.Constant) for x in d.elts) and not _typed_name(e.id):
+            return [copy.deepcopy(x) for x in d.elts]
         if isinstance(d, (ast.Tuple, ast.List)):
             # elements read through the name: T[i]
             return [ast.copy_location(ast.Subscript(value=ast.Name(id=e.id, ctx=ast.Load()), slice=ast.Constant(value=i), ctx=ast.Load()), e)
